@@ -128,17 +128,20 @@ pub fn cases<T: KS + Send + Sync>(out: &mut Out, rng0: &mut Rng, tier: &Tier, wh
                     out.case("chk.c02", l(vec![nu(k), st.clone(), n(mode), l(order.clone()), g.clone()]), b(true));
                 }
             }
-        } else {
-            out.case(if which == "C01" { "chk.c01" } else { "chk.c02" }, l(vec![]), V::Bot);
         }
+        // no panic: the theorem says the model succeeds under the hypotheses checked above
+        out.case("chk.total", l(vec![nu(k), st.clone(), n(mode), l(order.clone())]), b(g1v.is_some()));
         // entry point 2: from the sorted slice (internally the same table)
         let tb = &tbl;
         let g2 = guard(std::panic::AssertUnwindSafe(move || compress_kmers(stranded, sp, tb)));
         let g2v = g2.as_ref().map(base_nodes_v);
         if which == "C01" {
             out.case("c.compress", l(vec![nu(k), st.clone(), n(mode), l(order.clone())]), opt(g2v.clone()));
-        } else if let Some(g) = &g2v {
-            out.case("chk.c02p", l(vec![nu(k), st.clone(), n(mode), l(order.clone()), g.clone()]), b(true));
+        } else {
+            if let Some(g) = &g2v {
+                out.case("chk.c02p", l(vec![nu(k), st.clone(), n(mode), l(order.clone()), g.clone()]), b(true));
+            }
+            out.case("chk.total", l(vec![nu(k), st.clone(), n(mode), l(order.clone())]), b(g2v.is_some()));
         }
         // entry point 3: k-mers without extensions (only meaningful on unpruned, threshold-1 tables)
         if min_obs == 1 {
@@ -181,16 +184,18 @@ pub fn cases<T: KS + Send + Sync>(out: &mut Out, rng0: &mut Rng, tier: &Tier, wh
                 );
                 out.case("chk.c01.hyp", l(vec![nu(k), st.clone(), l(order3.clone())]), l(vec![b(true), b(true)]));
                 out.case("c.compress", l(vec![nu(k), st.clone(), n(mode), l(order3.clone())]), opt(g3v.clone()));
-                match &g3v {
-                    Some(g) => out.case("chk.c01", l(vec![nu(k), st.clone(), l(order3.clone()), g.clone()]), b(true)),
-                    None => out.case("chk.c01", l(vec![]), V::Bot),
+                if let Some(g) = &g3v {
+                    out.case("chk.c01", l(vec![nu(k), st.clone(), l(order3.clone()), g.clone()]), b(true));
                 }
+                out.case("chk.total", l(vec![nu(k), st.clone(), n(mode), l(order3.clone())]), b(g3v.is_some()));
             } else if let Some(g) = &g3v {
                 out.case("chk.c02.hyp", l(vec![nu(k), st.clone(), l(order3.clone())]), l(vec![b(true), b(true), b(true)]));
                 out.case("chk.c02p", l(vec![nu(k), st.clone(), n(mode), l(order3.clone()), g.clone()]), b(true));
                 if tbl.len() <= 40 {
                     out.case("chk.c02", l(vec![nu(k), st.clone(), n(mode), l(order3.clone()), g.clone()]), b(true));
                 }
+            } else {
+                out.case("chk.total", l(vec![nu(k), st.clone(), n(mode), l(order3.clone())]), b(false));
             }
         }
     }
